@@ -39,12 +39,75 @@ def orient(atom: Atom, row: dict) -> Optional[Atom]:
     return None
 
 
+def private_helpers(E: Engine, f: FunctionInfo, depth: int = 2) -> list[tuple[FunctionInfo, FunctionInfo, object]]:
+    """Private helpers (``self._x(...)`` of the same class hierarchy, module-level ``_x(...)``) called by ``f``:
+    (helper, caller, call node).  A validation extracted into such a helper is still part of the validation of ``f``.
+    """
+    import ast as _ast
+
+    out: list = []
+    seen = {f.qualname}
+    work = [(f, 0)]
+    while work:
+        g, d = work.pop()
+        if d >= depth:
+            continue
+        for n in _ast.walk(g.node):
+            if not isinstance(n, _ast.Call):
+                continue
+            h = None
+            if isinstance(n.func, _ast.Attribute) and isinstance(n.func.value, _ast.Name) and n.func.value.id in ("self", "cls") and n.func.attr.startswith("_") and not n.func.attr.startswith("__") and g.cls is not None:
+                cands = E.P.lookup_method_with_overrides(g.cls, n.func.attr)
+                h = cands[0] if len(cands) == 1 else None
+            elif isinstance(n.func, _ast.Name) and n.func.id.startswith("_") and not n.func.id.startswith("__"):
+                h = g.module.functions.get(n.func.id)
+            if h is not None and h.qualname not in seen:
+                seen.add(h.qualname)
+                out.append((h, g, n))
+                work.append((h, d + 1))
+    return out
+
+
+def _rebind(av: AV, bind: dict) -> AV:
+    """Replace roots that are (fields of) a helper's parameter by the provenance of the caller's argument."""
+    roots, tags = set(), set(av.tags)
+    for r in av.roots:
+        head, _, rest = r.partition(".")
+        pre = ""
+        while head.startswith(("idx<-", "arg<-", "cond<-")):
+            k, _, head2 = head.partition("<-")
+            pre += k + "<-"
+            head = head2
+        if head in bind:
+            b = bind[head]
+            tags |= b.tags
+            roots |= {pre + x + ("." + rest if rest else "") for x in b.roots}
+        else:
+            roots.add(r)
+    return AV(frozenset(roots), frozenset(tags))
+
+
 def rejection_conjunctions(E: Engine, f: FunctionInfo) -> list[tuple[int, list[Literal]]]:
-    ab = abstractor(E.flow(f))
     out = []
-    for r, dnf in ab.guards_of_raises():
-        for conj in dnf:
-            out.append((r.lineno, conj))
+    binds: dict[str, dict] = {f.qualname: {}}
+    for g, caller, call in [(f, None, None)] + private_helpers(E, f):
+        ab = abstractor(E.flow(g))
+        bind: dict = {}
+        if caller is not None:
+            cab = abstractor(E.flow(caller))
+            params = g.params[1:] if g.cls is not None and g.kind != "staticmethod" else g.params
+            up = binds.get(caller.qualname, {})
+            for pn, a in zip(params, call.args):
+                bind[pn] = _rebind(cab.av(a), up)
+            for k in call.keywords:
+                if k.arg:
+                    bind[k.arg] = _rebind(cab.av(k.value), up)
+            binds[g.qualname] = bind
+        for r, dnf in ab.guards_of_raises():
+            for conj in dnf:
+                if bind:
+                    conj = [Literal(Atom(_rebind(l.atom.lhs, bind), l.atom.rel, _rebind(l.atom.rhs, bind), l.atom.quant, l.atom.text) if l.atom is not None else None, _rebind(l.truth, bind) if l.truth is not None else None, l.positive, l.text) for l in conj]
+                out.append((r.lineno, conj))
     return out
 
 
